@@ -1,6 +1,6 @@
 (** * Idle/IdleModel.v — C15: one api-fu request as a labelled transition system.
 
-    Transcribed from /repo (after the [fix:] commit of C15; [fx = false] gives the pinned code):
+    Transcribed from /repo (after the [fix:] commit of C15; the [variant] record selects the pinned code):
 
       api.go  apiRequest                       -> [state] (asyncResolutions = the goroutines in [GParked];
                                                   batches = [st_pend]; chainedAsyncResolutions = [st_chained])
@@ -158,6 +158,15 @@ Inductive label :=
 | LEnd
 | LExit (w : nat).
 
+(** ** Variants of the code covered by the model
+    [v_fix]: the goroutines select on executionDone (the [fix:] commit; false = pinned code).
+    [v_loop]: after delivering to a chained promise the idle handler loops ([continue], the code
+    that exists); false = it falls through to the drain loop and returns to the executor, which
+    calls it again — a rewrite that keeps the property; every theorem is proved for both. *)
+Record variant := mkVariant { v_fix : bool; v_loop : bool }.
+Definition current : variant := mkVariant true true.
+Definition pinned : variant := mkVariant false true.
+
 (** ** Executor thread *)
 
 Definition parent_ready (s : state) (it : item) : bool :=
@@ -265,14 +274,16 @@ Definition do_flush_done (s : state) : option state :=
 (** [resolution := <-r.asyncResolutions; resolution.Dest <- resolution.Result]: blocking at the top
     of the loop when there are no batches (api.go:107-112, [continue] when the destination is a
     chained promise), non-blocking in the drain loop (api.go:116-123) *)
-Definition do_recv (s : state) (w : nat) : option state :=
+Definition do_recv (fx : variant) (s : state) (w : nat) : option state :=
   match st_gor s w, st_chan s w with
   | GParked r, None =>
       let s1 := set_gor (set_chan s w (Some r)) w GDone in
       match st_phase s with
       | PTop =>
           if is_nil (st_pend s) then
-            if st_chained s w then Some (set_chained s1 (upd (st_chained s) w false))
+            if st_chained s w then
+              if v_loop fx then Some (set_chained s1 (upd (st_chained s) w false))
+              else Some (set_phase (set_chained s1 (upd (st_chained s) w false)) PDrain)
             else Some (set_phase s1 PDrain)
           else None
       | PDrain => Some s1
@@ -331,10 +342,10 @@ Definition do_read (p : prog) (s : state) (c : nat) : option state :=
 
 (** fixed code only: after the execution returned, the [executionDone] case releases a goroutine
     that is at the send or waits for an inner promise *)
-Definition do_exit (fx : bool) (s : state) (w : nat) : option state :=
+Definition do_exit (fx : variant) (s : state) (w : nat) : option state :=
   match st_phase s with
   | PEnded =>
-      if fx then
+      if v_fix fx then
         match st_gor s w with
         | GWaiting _ _ | GFinished _ | GParked _ => Some (set_gor s w GExited)
         | _ => None
@@ -345,7 +356,7 @@ Definition do_exit (fx : bool) (s : state) (w : nat) : option state :=
 
 (** ** The transition function *)
 
-Definition step (fx : bool) (p : prog) (s : state) (l : label) : option state :=
+Definition step (fx : variant) (p : prog) (s : state) (l : label) : option state :=
   match l with
   | LCreate w => do_create p s w
   | LConsume w => do_consume p s w
@@ -356,20 +367,20 @@ Definition step (fx : bool) (p : prog) (s : state) (l : label) : option state :=
   | LFinish w => do_finish p s w
   | LRead c => do_read p s c
   | LArrive w => do_arrive s w
-  | LRecv w => do_recv s w
+  | LRecv w => do_recv fx s w
   | LIdleExit => do_idle_exit p s
   | LEnd => do_end p s
   | LExit w => do_exit fx s w
   end.
 
-Fixpoint run (fx : bool) (p : prog) (s : state) (tr : list label) : option state :=
+Fixpoint run (fx : variant) (p : prog) (s : state) (tr : list label) : option state :=
   match tr with
   | [] => Some s
   | l :: tr' => match step fx p s l with Some s' => run fx p s' tr' | None => None end
   end.
 
 (** the acceptor used by the correspondence check: index of the first label that is not enabled *)
-Fixpoint accept (fx : bool) (p : prog) (s : state) (i : nat) (tr : list label) : state + nat :=
+Fixpoint accept (fx : variant) (p : prog) (s : state) (i : nat) (tr : list label) : state + nat :=
   match tr with
   | [] => inl s
   | l :: tr' => match step fx p s l with Some s' => accept fx p s' (S i) tr' | None => inr i end
